@@ -550,7 +550,25 @@ def _m_extend(eng, recv, args, kwargs):
     hook = getattr(eng, "extend_hook", None)
     if hook is not None:
         return hook(eng, recv, src)
-    raise Unsupported("extend on a symbolic list")
+    # list.extend(iterable) on a symbolic list: the elements of the iterable are appended in order
+    inner = src
+    if isinstance(inner, Iter):
+        if inner.consumed:
+            return None
+        inner.consumed = True
+        inner = inner.seq
+    if isinstance(inner, PList) and inner.items is None and inner.tup == recv.tup and len(inner.kinds) == len(recv.kinds):
+        i = z3.Int(fresh_name("ex"))
+        n0 = zint(recv.n)
+        recv.cols = [z3.Lambda([i], z3.If(i < n0, z3.Select(c0, i), to_z3(Sym(z3.Select(c1, i - n0), k1), k0)))
+                     for c0, c1, k0, k1 in zip(recv.cols, inner.cols, recv.kinds, inner.kinds)]
+        recv.n = z3.simplify(n0 + zint(inner.n))
+        return None
+    if isinstance(inner, PList) and inner.items is not None:
+        for x in inner.items:
+            _m_append(eng, recv, [x], {})
+        return None
+    raise Unsupported("extend of a symbolic list by this kind of iterable")
 
 
 def _m_clear(eng, recv, args, kwargs):
